@@ -110,11 +110,11 @@ def declare(spec):
 
     F(spec, "Schedule",
       schedule_type="str", shift_end_dates="list:NumList", numbers_of_servers="list:IntList",
-      preemption="orfalse:str", cyclelength="num", offset="num", c="int", next_shift_change_date="num",
+      preemption="orfalse:str", cyclelength="num", offset="num", c="int", next_shift_change_date="time",
       next_c="int", schedule_generator="gen:Sched")
     F(spec, "Slotted",
       slots="list:NumList", slot_sizes="list:IntList", next_slot_sizes="list:IntList", capacitated="bool",
-      next_slot_date="num", slot_size="int")
+      next_slot_date="time", slot_size="int")
 
     F(spec, "Network",
       service_centres="list:Centres", customer_classes="dict:CClasses", number_of_nodes="int",
